@@ -23,7 +23,16 @@ type ExecMode struct {
 	Config    string
 	PlansPer  int
 	Procs     int
-	Env       []string // extra environment of the probe processes
+	Lines     func(*Scenario) [][]byte
+	// Classify names the finding class of a rejection (default RejectKey); DevConfig,
+	// when set, is a deviation-tolerant config under which rejected scenarios are
+	// validated again so that the rest of their trace is still checked.
+	Classify  func(Rejection) string
+	DevConfig string
+	// Corpus are extra hand-written scenarios (with Op trees, e.g. from CorpusScenario);
+	// those with a Sched/Order are run as given, the others also get derived plans.
+	Corpus []*Scenario
+	Env    []string // extra environment of the probe processes
 }
 
 // derivePlans builds fault plans for an operation from the events of its
@@ -261,6 +270,9 @@ func ExecConformance(c *Check, prop string, bins map[string]string, vs []Variant
 	if m.Module == "" {
 		m.Module, m.Config = "GqlExecTrace", "GqlExecTrace.cfg"
 	}
+	if m.Lines == nil {
+		m.Lines = TraceLines
+	}
 	if m.PlansPer == 0 {
 		m.PlansPer = 4
 	}
@@ -283,6 +295,16 @@ func ExecConformance(c *Check, prop string, bins map[string]string, vs []Variant
 			Defer: m.Defer, Avoid: []string{"withArgs", "argd", "arg", "mat"}})
 		q := op.Render()
 		base = append(base, &Scenario{ID: fmt.Sprintf("%s-op%d", prop, i), Op: op, Query: q, Vars: op.Vars, Variant: vs[0].ID()})
+	}
+	var scripted []*Scenario
+	for _, cs := range m.Corpus {
+		if cs.Sched != "" {
+			scripted = append(scripted, cs)
+		} else {
+			cp := *cs
+			cp.Variant = vs[0].ID()
+			base = append(base, &cp)
+		}
 	}
 	if err := RunScenarios(first, base, m.Procs, m.Env); err != nil {
 		Infra("run baseline: %v", err)
@@ -309,9 +331,13 @@ func ExecConformance(c *Check, prop string, bins map[string]string, vs []Variant
 			templ = append(templ, sc)
 		}
 	}
+	templ = append(templ, scripted...)
 	if m.Scheds {
 		var more []*Scenario
 		for _, t := range templ {
+			if t.Sched != "" {
+				continue
+			}
 			for _, sch := range []string{"lifo", "fifo", fmt.Sprintf("rand:%d", r.Intn(1000))} {
 				cp := *t
 				cp.ID = t.ID + "-" + strings.ReplaceAll(sch, ":", "")
@@ -371,12 +397,27 @@ func ExecConformance(c *Check, prop string, bins map[string]string, vs []Variant
 			}
 			respOf[s.ID][v.ID()] = canonResp(s.Result)
 		}
-		rej, err := ValidateBatch(c, m.Module, m.Config, schemaRaw, ok, TraceLines, Work(prop, "tlc-"+v.ID()))
+		rej, err := ValidateBatch(c, m.Module, m.Config, schemaRaw, ok, m.Lines, Work(prop, "tlc-"+v.ID()))
 		if err != nil {
 			Infra("trace validation (%s): %v", v.ID(), err)
 		}
+		var again []*Scenario
 		for _, rj := range rej {
-			c.Violate(RejectKey(rj), rj.Describe(), rj.Scenario)
+			key := RejectKey(rj)
+			if m.Classify != nil {
+				key = m.Classify(rj)
+			}
+			c.Violate(key, rj.Describe(), rj.Scenario)
+			again = append(again, rj.Scenario)
+		}
+		if m.DevConfig != "" && len(again) > 0 {
+			rej2, err := ValidateBatch(c, m.Module, m.DevConfig, schemaRaw, again, m.Lines, Work(prop, "tlcdev-"+v.ID()))
+			if err != nil {
+				Infra("trace validation, deviation config (%s): %v", v.ID(), err)
+			}
+			for _, rj := range rej2 {
+				c.Violate("beyond-known-deviation:"+RejectKey(rj), rj.Describe(), rj.Scenario)
+			}
 		}
 		if len(ok) > 0 {
 			s := ok[len(ok)/2]
@@ -454,6 +495,25 @@ func canonResp(r *ur.Result) string {
 		}
 		sort.Strings(es)
 		out = append(out, cr{rs.Data, es})
+	}
+	// incremental payloads may arrive in any order: compare them as a set
+	if len(out) > 2 {
+		rest := out[1:]
+		keys := make([]string, len(rest))
+		for i := range rest {
+			kb, _ := json.Marshal(rest[i])
+			keys[i] = r.Resps[i+1].Path + "|" + r.Resps[i+1].Label + "|" + string(kb)
+		}
+		idx := make([]int, len(rest))
+		for i := range idx {
+			idx[i] = i
+		}
+		sort.Slice(idx, func(a, b int) bool { return keys[idx[a]] < keys[idx[b]] })
+		sorted := make([]cr, len(rest))
+		for i, j := range idx {
+			sorted[i] = rest[j]
+		}
+		copy(out[1:], sorted)
 	}
 	b, _ := json.Marshal(out)
 	return string(b)
